@@ -230,6 +230,35 @@ pub fn cfg_for(driver: &str, tier: &str) -> Option<(Cfg, u32)> {
             c.final_dispatches = 2;
             (c, if q { 1 } else { 2 })
         }
+        // C08: every handle operation from inside every kind of callback (and from idles inserted
+        // by callbacks), aimed at the running source, another one, or a freshly inserted one
+        "reentrancy" => {
+            let mut c = Cfg::base("reentrancy");
+            c.initial_sets = vec![
+                vec![KindSpec::Ping, KindSpec::Chan, KindSpec::Timer(-1)],
+                vec![FD_RL, KindSpec::Exec, KindSpec::Ping],
+                vec![KindSpec::ExecIo, KindSpec::Chan],
+                vec![KindSpec::Timer(-1), KindSpec::Exec, FD_RO],
+                vec![KindSpec::Chan, KindSpec::ExecIo, KindSpec::Timer(-1)],
+            ];
+            c.insertable = vec![KindSpec::Ping, KindSpec::Chan, KindSpec::Timer(-1), FD_RL, KindSpec::Exec, KindSpec::Async];
+            c.reconf = vec![(true, false, 0), (true, true, 0)];
+            c.max_actors = 5;
+            c.depth = if q { 3 } else { 4 };
+            c.max_cb_ops = if q { 1 } else { 2 };
+            c.top_remove = false;
+            c.top_disable = true;
+            c.top_update = false;
+            c.top_cause2 = false;
+            c.cb_insert = true;
+            c.cb_remove_self_insert = true;
+            c.cb_cause2 = true;
+            c.cb_idle = true;
+            c.cb_set_deadline = vec![2];
+            c.prune = false;
+            c.final_dispatches = 2;
+            (c, if q { 1 } else { 2 })
+        }
         _ => return None,
     })
 }
@@ -242,7 +271,7 @@ pub fn run(args: &Args) -> Option<Report> {
     let max_dev = args.opt_u("dev", max_dev as u64) as u32;
     let cfg = Rc::new(cfg);
     crate::seqhooks::install();
-    std::panic::set_hook(Box::new(|_| {}));
+    crate::quiet_panics();
 
     if let Some(path) = &args.replay {
         let v: serde_json::Value = serde_json::from_str(&std::fs::read_to_string(path).unwrap()).unwrap();
